@@ -376,12 +376,67 @@ def _settings(repo, rep):
         rep.check(ok, "R10.3", CC + name, "a macro is called with the "
                   "caller's translation settings", construct="macro-call")
     rf = repo.func("chameleon.template.BaseTemplate.render")
-    text = " ".join(src(s) for s in ast.walk(rf.node)
-                    if isinstance(s, ast.stmt))
+    text = L.text(rf.node)
     rep.check("target_language=target_language" in text and
               "__kw.get('target_language')" in text, "R10.3", rf.qualname,
               "render() hands the target_language argument to the top-level "
               "render function", construct="render-target", where=L.where(rf))
+    _wrappers(repo, rep)
+
+
+TRANSLATE_KW = ("domain", "mapping", "context", "target_language", "default")
+
+
+def _wrappers(repo, rep):
+    """A function that stands in for the translation function (installed as
+    __translate) must hand every keyword of the translate contract through
+    to the function it wraps."""
+    f = repo.func("chameleon.zpt.template.PageTemplate.render")
+    wh = L.where(f)
+    inner = [n for n in ast.walk(f.node)
+             if isinstance(n, (ast.FunctionDef, ast.Lambda))
+             and n is not f.node]
+    n_wr = 0
+    for w in inner:
+        a = w.args
+        params = a.posonlyargs + a.args
+        defaults = dict(zip([x.arg for x in params[len(params) -
+                                                   len(a.defaults):]],
+                            a.defaults))
+        defaults.update({x.arg: d for x, d in zip(a.kwonlyargs, a.kw_defaults)
+                         if d is not None})
+        wrapped = [k for k, d in defaults.items()
+                   if isinstance(d, ast.Name) and d.id == "translate"]
+        if not wrapped and getattr(w, "name", "") != "translate":
+            continue
+        n_wr += 1
+        calls = [c for c in ast.walk(w) if isinstance(c, ast.Call)
+                 and isinstance(c.func, ast.Name) and c.func.id in wrapped]
+        rep.check(bool(calls), "R10.3", f.qualname, "the encoding wrapper "
+                  "calls the translation function it wraps",
+                  construct="wrapper-calls", where=wh)
+        names = {x.arg for x in params + a.kwonlyargs}
+        for c in calls:
+            star = [k for k in c.keywords if k.arg is None]
+            fwd_all = bool(star) and a.kwarg is not None and any(
+                isinstance(k.value, ast.Name) and k.value.id == a.kwarg.arg
+                for k in star)
+            missing = []
+            for kw in TRANSLATE_KW:
+                explicit = [k for k in c.keywords if k.arg == kw]
+                if explicit:
+                    continue
+                if fwd_all and kw not in names:
+                    continue
+                missing.append(kw)
+            rep.check(not missing, "R10.3", f.qualname, "the wrapper passes "
+                      "every translation keyword (domain, mapping, context, "
+                      "target_language, default) through",
+                      construct="wrapper-forwards", where=wh,
+                      detail="not forwarded: %s in %s" % (missing, src(c)))
+    rep.check(n_wr >= 1, "R10.3", f.qualname, "the encoding wrapper around "
+              "the translation function is found", construct="wrapper-found",
+              where=wh)
 
 
 def _names(repo, rep):
@@ -494,14 +549,48 @@ def _messages(repo, rep):
                   "__html__ is offered to translate first; str() is applied "
                   "only if translate returned the object unchanged" % name,
                   construct="translate-before-str:" + name, detail=detail)
-    rep.require_min("R10.5", 3, "__quote, __convert, emit_convert")
+    # lexical scoping of the conversion helpers: they read __i18n_domain /
+    # __i18n_context as free variables, so every generated function that has
+    # those as its own parameters must define its own helpers -- otherwise a
+    # message object inserted there is translated with the settings of the
+    # enclosing function
+    for name in ("visit_Macro", "visit_UseExternalMacro"):
+        r = L.emission(repo, CC + name)
+        fds = [w for w in A.walk(r.emission) if isinstance(w, A.Py)
+               and w.kind == "FunctionDef"]
+        for fd in fds:
+            params = [A.show(w.ident).strip("'") for w in A.walk(
+                fd.f.get("args")) if isinstance(w, A.NameRef)
+                and w.ctx == "param"]
+            if "__i18n_domain" not in params:
+                continue
+            helpers = set()
+            first_child = None
+            for i, w in enumerate(A.walk(fd.f.get("body"))):
+                if isinstance(w, A.Frag) and "func" in w.slots and \
+                        w.tree is not None and any(
+                            isinstance(n, ast.FunctionDef)
+                            for n in w.tree.body) and first_child is None:
+                    helpers.add(A.show(w.slots["func"]).strip("'"))
+                if isinstance(w, A.Child) and first_child is None:
+                    first_child = i
+            rep.check({"__convert", "__quote"} <= helpers, "R10.5",
+                      CC + name, "the generated function has its own "
+                      "__i18n_domain/__i18n_context parameters and defines "
+                      "its own __convert/__quote ahead of its content, so "
+                      "inserted message objects see the settings in effect "
+                      "where they are written",
+                      construct="helpers-scoped:" + name,
+                      where=L.where(repo.func(CC + name)),
+                      detail="defined here: %s" % sorted(helpers))
+    rep.require_min("R10.5", 5, "__quote, __convert, emit_convert, helper "
+                    "scoping in render and filler functions")
 
 
 def _attributes(repo, rep):
     f = repo.func("chameleon.zpt.program.MacroProgram."
                   "_create_attributes_nodes")
-    text = " ".join(src(s) for s in ast.walk(f.node)
-                    if isinstance(s, ast.stmt))
+    text = L.text(f.node)
     site = f.qualname
     wh = L.where(f)
     rep.check("msgid = I18N_ATTRIBUTES.get(name, missing)" in text, "R10.6",
@@ -564,8 +653,7 @@ def _attributes(repo, rep):
               "mapping (also for empty or zero values); only absent names "
               "keep the placeholder", construct="mapping-get",
               where=L.where(st), detail=detail)
-    t2 = " ".join(src(x) for x in ast.walk(st.node)
-                  if isinstance(x, ast.stmt))
+    t2 = L.text(st.node)
     rep.check("if default is None: default = getattr(msgid, 'default', "
               "msgid)" in t2 and "if mapping is None: mapping = "
               "getattr(msgid, 'mapping', None)" in t2, "R10.6", st.qualname,
@@ -593,8 +681,7 @@ def _attributes(repo, rep):
               "default = the value)", construct="emit-translate",
               where=L.where(g), detail=detail)
     pa = repo.func("chameleon.i18n.parse_attributes")
-    text = " ".join(src(s) for s in ast.walk(pa.node)
-                    if isinstance(s, ast.stmt))
+    text = L.text(pa.node)
     rep.check("d[attr] = msgid" in text and "if attr in d:" in text, "R10.6",
               pa.qualname, "i18n:attributes maps attribute -> msgid, once per "
               "attribute", construct="parse-attributes", where=L.where(pa))
